@@ -358,4 +358,131 @@ def stepOp (sets : List St) : Op → List St × Nat × Option Err
 /-- run a whole history from no sets at all -/
 def runOps (ops : List Op) : List St := ops.foldl (fun sets op => (stepOp sets op).1) []
 
+/-! ### additions (C06/C07 deepening): address iteration, `repr`, `!=`, and the non-mutating
+operations as steps over the store of live sets.  Nothing above is changed. -/
+
+/-- `IPNetwork.__iter__` = `iter_iprange(IPAddress(first), IPAddress(last))`: the index starts
+    at `first` and is yielded while `index <= last` (nothing when `first > last`) -/
+def netAddrs (c : Net) : List (Nat × Nat) :=
+  (List.range' c.first (c.last + 1 - c.first)).map (fun a => (c.ver, a))
+
+/-- `IPSet.__iter__` = `itertools.chain(*sorted(self._cidrs))`: `(version, address)` pairs -/
+def iterAddrs (s : St) : List (Nat × Nat) := (iterCidrs s).flatMap netAddrs
+
+/-- `__repr__` = `'IPSet(%r)' % [str(c) for c in sorted(self._cidrs)]` at value level: the
+    sorted key list, each key shown as `(version, value, prefixlen)` — `str(c)` prints the stored
+    value (host bits included) and the prefix length (Model/IPSetText.lean prints the strings) -/
+def reprSet (s : St) : List Net := sortNets s
+
+/-- `__ne__`: `self._cidrs != other._cidrs` (dict `!=` is the negation of dict `==`) -/
+def ne (s t : St) : Bool := !(eq s t)
+
+/-- `__bool__` / `__nonzero__`: `bool(self._cidrs)` -/
+def nonzero (s : St) : Bool := !s.isEmpty
+
+/-- `__le__ = issubset`, `__ge__ = issuperset` -/
+def le (s t : St) : Bool := issubset s t
+def ge (s t : St) : Bool := issuperset s t
+
+/-- the live sets of a history -/
+abbrev Store := List St
+
+/-- the non-mutating operations: comparisons, predicates, size, the range views, membership,
+    iteration, `iter_cidrs`, `repr`, truth value -/
+inductive QOp where
+  | eq (i j : Nat) | ne (i j : Nat)
+  | issubset (i j : Nat) | issuperset (i j : Nat)
+  | le (i j : Nat) | ge (i j : Nat) | lt (i j : Nat) | gt (i j : Nat)
+  | isdisjoint (i j : Nat)
+  | size (i : Nat) | len (i : Nat)
+  | iscontiguous (i : Nat) | iprange (i : Nat) | iterIpranges (i : Nat)
+  | contains (i : Nat) (n : Net)
+  | iter (i : Nat) | iterCidrs (i : Nat) | repr (i : Nat) | nonzero (i : Nat)
+deriving Repr, Inhabited, DecidableEq
+
+/-- what a query returns -/
+inductive QVal where
+  | bool (b : Bool)
+  | nat (n : Nat)
+  | rng (r : Option Rng)
+  | ranges (l : List VR)
+  | addrs (l : List (Nat × Nat))
+  | cidrs (l : List Net)
+deriving Repr, Inhabited, DecidableEq
+
+/-- the value (or exception) of a query on the current store; `maxint` = `sys.maxsize` -/
+def evalQ (maxint : Nat) (sets : Store) : QOp → R QVal
+  | .eq i j => .ok (.bool (eq (getSet sets i) (getSet sets j)))
+  | .ne i j => .ok (.bool (ne (getSet sets i) (getSet sets j)))
+  | .issubset i j => .ok (.bool (issubset (getSet sets i) (getSet sets j)))
+  | .issuperset i j => .ok (.bool (issuperset (getSet sets i) (getSet sets j)))
+  | .le i j => .ok (.bool (le (getSet sets i) (getSet sets j)))
+  | .ge i j => .ok (.bool (ge (getSet sets i) (getSet sets j)))
+  | .lt i j => .ok (.bool (lt (getSet sets i) (getSet sets j)))
+  | .gt i j => .ok (.bool (gt (getSet sets i) (getSet sets j)))
+  | .isdisjoint i j => .ok (.bool (isdisjoint (getSet sets i) (getSet sets j)))
+  | .size i => .ok (.nat (size (getSet sets i)))
+  | .len i => (len maxint (getSet sets i)).map .nat
+  | .iscontiguous i => .ok (.bool (iscontiguous (getSet sets i)))
+  | .iprange i => (iprange (getSet sets i)).map .rng
+  | .iterIpranges i => .ok (.ranges (iterIpranges (getSet sets i)))
+  | .contains i n => .ok (.bool (contains (getSet sets i) n))
+  | .iter i => .ok (.addrs (iterAddrs (getSet sets i)))
+  | .iterCidrs i => .ok (.cidrs (iterCidrs (getSet sets i)))
+  | .repr i => .ok (.cidrs (reprSet (getSet sets i)))
+  | .nonzero i => .ok (.bool (nonzero (getSet sets i)))
+
+/-- a query as a step of a history: the store it leaves behind and what it returned -/
+def stepQ (maxint : Nat) (sets : Store) (q : QOp) : Store × R QVal := (sets, evalQ maxint sets q)
+
+/-- a history step is a mutation / construction (`Op`) or a query (`QOp`) -/
+inductive Step where
+  | op (o : Op)
+  | q (q : QOp)
+deriving Repr, Inhabited
+
+/-- one step of a mixed history: new store and, for a query, its outcome -/
+def stepAny (maxint : Nat) (sets : Store) : Step → Store × Option (R QVal)
+  | .op o => ((stepOp sets o).1, none)
+  | .q q => ((stepQ maxint sets q).1, some (stepQ maxint sets q).2)
+
+/-! #### the same answers, computed faster (the driver runs these; `Lemmas/IPSetIterFast.lean`
+proves each equal to the definition above) -/
+
+/-- `k in keys` where `keys` are the `(version, first, last)` tuples of a dict, computed once -/
+def dMemK (keys : List VR) (k : Net) : Bool :=
+  let kk := vrOf k
+  keys.any (fun c => c == kk)
+
+def containsK (keys : List VR) (n : Net) : Bool :=
+  (List.range (n.plen + 1)).any (fun q => dMemK keys ⟨n.ver, n.val, q⟩)
+
+def issubsetK (s t : St) : Bool :=
+  let keys := t.map vrOf
+  s.all (fun c => containsK keys c)
+
+def eqK (s t : St) : Bool :=
+  let keys := t.map vrOf
+  s.length == t.length && s.all (fun c => dMemK keys c)
+
+/-- `evalQ` with the dictionary keys of the right operand computed once per query -/
+def evalQFast (maxint : Nat) (sets : Store) : QOp → R QVal
+  | .eq i j => .ok (.bool (eqK (getSet sets i) (getSet sets j)))
+  | .ne i j => .ok (.bool (!(eqK (getSet sets i) (getSet sets j))))
+  | .issubset i j => .ok (.bool (issubsetK (getSet sets i) (getSet sets j)))
+  | .issuperset i j => .ok (.bool (issubsetK (getSet sets j) (getSet sets i)))
+  | .le i j => .ok (.bool (issubsetK (getSet sets i) (getSet sets j)))
+  | .ge i j => .ok (.bool (issubsetK (getSet sets j) (getSet sets i)))
+  | .lt i j => .ok (.bool (size (getSet sets i) < size (getSet sets j) && issubsetK (getSet sets i) (getSet sets j)))
+  | .gt i j => .ok (.bool (size (getSet sets i) > size (getSet sets j) && issubsetK (getSet sets j) (getSet sets i)))
+  | .contains i n => .ok (.bool (containsK ((getSet sets i).map vrOf) n))
+  | q => evalQ maxint sets q
+
+/-- a query step evaluated the fast way -/
+def stepQFast (maxint : Nat) (sets : Store) (q : QOp) : Store × R QVal := (sets, evalQFast maxint sets q)
+
+/-- a row of queries evaluated one after the other, the store threaded through them -/
+def runQs (maxint : Nat) (sets : Store) (qs : List QOp) : Store × List (R QVal) :=
+  qs.foldl (fun acc q => let r := stepQFast maxint acc.1 q; (r.1, acc.2 ++ [r.2])) (sets, [])
+
 end NV.IPSet
